@@ -81,6 +81,17 @@ Variant ==
                    \cup (IF baseok /\ Ev.accepted /\ Ev.digest # Ev.base THEN {"LayoutChangesModel"} ELSE {})
   /\ st' = st /\ l' = l + 1
 
+\* beyond the listed properties: the model printed back as Sysl text (pkg/printer, the "reverse parser" behind the import of
+\* compiled models as text) and compiled again says what the declarations say (no verdict; kinds of facts only)
+Reprint ==
+  /\ Is("reprint")
+  /\ LET got == FactSet(Ev.facts)
+         want == FinalModel(st)
+         kinds == {"missing:" \o f[1] : f \in want \ got} \cup {"spurious:" \o f[1] : f \in got \ want}
+     IN IF ~Ev.ok THEN Say("EXTRA", Ev.t, [reprint |-> {"PrintedTextDoesNotCompile"}, example |-> <<>>])
+        ELSE (kinds # {}) => Say("EXTRA", Ev.t, [reprint |-> kinds, example |-> Some((want \ got) \cup (got \ want))])
+  /\ st' = st /\ bad' = bad /\ l' = l + 1
+
 \* beyond the listed properties: the linter's warnings about calls are exactly the dangling calls (no verdict)
 Lint ==
   /\ Is("lint")
@@ -96,7 +107,7 @@ Ret ==
         /\ bad' = {}
   /\ st' = st /\ l' = l + 1
 
-Normal == Begin \/ Decl \/ State \/ Locs \/ Variant \/ Lint \/ Ret
+Normal == Begin \/ Decl \/ State \/ Locs \/ Variant \/ Lint \/ Reprint \/ Ret
 
 Skip == /\ l <= Len(Trace) /\ ~ENABLED Normal
         /\ Say("REJECT", Ev.t, Ev.e)
